@@ -708,7 +708,7 @@ the normalisation (Lemmas/TwinOps.lean, `sim_opXxx`), unless the line is in the 
 The exception set `asym w op a` (Lemmas/TwinOps.lean; the same in twin worlds, `asymLine_twin`):
 `info`, `pack`, `deg`, `upg` of a boolean map; `deg` with a boolean weight map; `genhp ord=…` of
 a boolean map; `dor` on a boolean file or with a boolean weight file; `nvalid path=str` of a
-boolean map; `upd … vdtype=b1` on a boolean map.  Every class is witnessed by an evaluated pair
+boolean map.  Every class is witnessed by an evaluated pair
 of histories with different answers (`#guard`s at the end of Lemmas/TwinOps.lean); creation
 (`cfg … kind=packed` against `cfg … kind=plain dtype=b1`, different LINES) is `make_empty_packed_iff`
 and `cfg_twin`.  Everything else — updates by pixels and by ranges, boolean algebra, inversion,
